@@ -330,7 +330,7 @@ edge S50 s:start;y;s:gstop:15:50;a:100
 edge2 E60 s:start;a:10;s:gstop:15:50;a:100
 """.strip().splitlines()]
 
-JOB_ALPHABET = ["start", "stop", "gstop:15:20", "restart", "grestart:15:20", "tryrestart", "gtryrestart:15:20", "signal:10", "towait", "delete", "deletenow", "run:1", "seterr"]
+JOB_ALPHABET = ["start", "stop", "gstop:15:20", "restart", "grestart:15:20", "tryrestart", "gtryrestart:15:20", "signal:10", "towait", "delete", "deletenow", "run:1", "seterr", "continue"]
 
 def job_scripts(seed, n_random, exhaustive_len):
     r = random.Random(seed)
@@ -362,7 +362,7 @@ def job_scripts(seed, n_random, exhaustive_len):
         if k < 0.9: return "I"
         return "F"
     def api():
-        k = r.choice(["start", "start", "stop", "gstop", "restart", "grestart", "tryrestart", "gtryrestart", "signal", "towait", "towait", "delete", "deletenow", "run", "run", "seterr", "unseterr"])
+        k = r.choice(["start", "start", "stop", "gstop", "restart", "grestart", "tryrestart", "gtryrestart", "signal", "towait", "towait", "delete", "deletenow", "run", "run", "seterr", "unseterr", "continue"])
         g = r.choice([1, 2, 9, 10, 15, 15, 15, 0, 64]); ms = r.choice([0, 1, 5, 10, 20, 50, 100])
         if k in ("gstop", "grestart", "gtryrestart"): return f"{k}:{g}:{ms}"
         if k == "signal": return f"signal:{g}"
@@ -414,7 +414,7 @@ def job_oracles(script, trace):
             if o.split(":")[1] == "towait": out.append(("C09", f"wait-for-end ticket {u} not resolved although nothing is running"))
             out.append(("C07", f"ticket {u} of `{o}` never resolved although no process is left and the script has gone quiet"))
     # C06 / C09: each spawn is caused by one spawning control (start, restart, try-restart and graceful variants)
-    nspawnctl = sum(1 for o in sends if o.split(":")[1] in ("start", "restart", "grestart", "tryrestart", "gtryrestart"))
+    nspawnctl = sum(1 for o in sends if o.split(":")[1] in ("start", "restart", "grestart", "tryrestart", "gtryrestart", "continue"))
     nspawn = sum(1 for e in ev if e.split(":")[1] in ("spawn", "spawnfail"))
     if nspawn > nspawnctl:
         out.append(("C06", f"{nspawn} spawn attempts for {nspawnctl} controls that can spawn: a restart started more than once"))
@@ -427,7 +427,7 @@ def job_oracles(script, trace):
         out.append(("C10", f"run markers executed as {ran}, sent as {sent_runs}"))
     if len(ran) != len(set(ran)) and len(set(sent_runs)) == len(sent_runs): out.append(("C07", f"a run marker executed twice: {ran}"))
     # C06: no kill before the grace period of some graceful control has elapsed, in scripts without forceful controls
-    forceful = any(o[:2] in ("s:", "n:") and o.split(":")[1] in ("stop", "restart", "tryrestart", "delete", "deletenow") for o in ops) or "drop" in ops
+    forceful = any(o[:2] in ("s:", "n:") and o.split(":")[1] in ("stop", "restart", "tryrestart", "delete", "deletenow", "continue") for o in ops) or "drop" in ops
     if not forceful:
         now = 0; deadlines = []
         for o in ops:
@@ -483,7 +483,7 @@ def job_stream(pid, ctx, n_random=None):
         if i % max(1, len(scripts) // 4) == 0 and len(s.samples) < 4: s.samples.append({"script": c, "impl": ta[:300], "model": tb[:300]})
     s.note = ("scripts of API calls / virtual-time gaps / settles / handle drops against the real start_job (simulated child through the public spawn hook, paused clock, "
               "tickets polled by hand with recording wakers) vs the model's set of admissible traces: fixed scripts for every past finding, bounded-exhaustive sequences over the "
-              "13-call public alphabet x {burst, settled} x 3 child behaviours, 60 park-then-mixed-priority-burst scripts, then seeded random scripts")
+              "14-call public alphabet x {burst, settled} x 3 child behaviours, 60 park-then-mixed-priority-burst scripts, then seeded random scripts")
     return s
 
 def job_plan(pid, modules, theorems, rule_extra, partial=""):
@@ -514,3 +514,301 @@ PLANS["C09"] = job_plan("C09", ["Wx.Job.C09", "Wx.Job.C09b"], ["Jm.handle_refine
     "The run markers record (current, previous) state, so the observable state is compared step by step with the model, which refines the documented machine (specStep).")
 PLANS["C10"] = job_plan("C10", ["Wx.Job.C10b", "Wx.Job.C10c"], ["Jm.c10_fifo", "Jm.c10_priority", "Jm.c10_priority_fails_today", "Jm.c10_ran"],
     "Oracle: normal-priority run markers execute in send order.")
+
+# ------------------------------------------------------------------------------------------------
+# C13 fs worker
+
+def fs_scripts(seed, n):
+    r = random.Random(seed * 7919 + 13)
+    names = "abcd"
+    fixed = [
+        "kind set:a+:N;set:a+:P;poke",                         # F8a: kind change with an unchanged path set
+        "incall set:a+:N;hook:b:a+,b+,c+:N;set:a+,b+:N;poke",   # F8b: change made inside a watch call
+        "flip set:a+:N;set:a-:N;poke",                          # recursion mode flips on a path that stays configured
+        "flip2 set:a+,b-:N;set:a-,b+:N;set:a-,b+:P;poke",
+        "empty set:a+,b+:N;set::N;set:b+:N;poke",
+        "failw failw:a;set:a+,b+:N;okw:a;poke;set:a+,b+,c-:N;poke",
+        "failu set:a+,b+:N;failu:a;set:b+:N;poke",
+    ]
+    out = [f"f{i}_{l}" for i, l in enumerate(fixed)]
+    # bounded-exhaustive: every sequence of up to 3 path-set changes over a universe of 2 paths x 2 modes (incl. empty)
+    sets = ["", "a+", "a-", "b+", "a+,b+", "a-,b+", "a+,b-"]
+    i = 0
+    for s1 in sets:
+        for s2 in sets:
+            for k2 in "NP":
+                out.append(f"x{i} set:{s1}:N;set:{s2}:{k2};poke"); i += 1
+    for j in range(n):
+        flips = r.random() < 0.4
+        flag = {x: r.choice("++-") for x in names}
+        def paths():
+            k = r.choice([0, 1, 1, 2, 2, 3])
+            return ",".join(x + (r.choice("+-") if flips else flag[x]) for x in r.sample(names, k))
+        ops = []
+        for _ in range(r.randint(1, 7)):
+            k = r.random()
+            if k < 0.12: ops.append(f"hook:{r.choice(names)}:{paths()}:{r.choice('NNP')}")
+            elif k < 0.2: ops.append(f"failw:{r.choice(names)}")
+            elif k < 0.25: ops.append(f"okw:{r.choice(names)}")
+            elif k < 0.3 and not flips: ops.append(f"failu:{r.choice(names)}")
+            elif k < 0.4: ops.append("poke")
+            else: ops.append(f"set:{paths()}:{r.choice('NNNP')}")
+        ops.append("poke")
+        out.append(f"w{seed}_{j} {';'.join(ops)}")
+    return out
+
+def fs_oracle(script, trace, conf):
+    """C13 at quiescence: after the last op (a poke with nothing pending) the registered set is the configured one
+    with the configured modes, minus paths whose registration was made to fail; empty configured set = no watcher.
+    `conf` is what the real Config holds at the end (in-call changes included)."""
+    ops = script.split(" ", 1)[1].split(";")
+    failing = set(); everfail = False
+    for o in ops:
+        p = o.split(":")
+        if p[0] == "failw": failing.add(p[1]); everfail = True
+        elif p[0] == "okw": failing.discard(p[1])
+        elif p[0] == "failu": everfail = True
+    if everfail: return None       # with injected faults the expected end state is left to the model comparison
+    paths, kind = conf.split("|")
+    want = sorted(x for x in paths.split(",") if x)
+    last = trace.split(";")[-1]
+    live = last.split("/")[-1]
+    got = [] if live in ("none", "empty") else sorted(live.split(","))
+    if want != got: return f"configured {want or 'nothing'} but registered {got or live} once changes stopped"
+    if not want and live != "none": return "configured set is empty but the watcher was not released"
+    return None
+
+def c13_streams(ctx):
+    n = 30000 if ctx["thorough"] else 4000
+    s = core.StreamResult("fs-worker")
+    d = core.WORK / ctx.get("pid13", "C13") / "fs-worker"; d.mkdir(parents=True, exist_ok=True)
+    scripts = fs_scripts(ctx["seed"], n)
+    (d / "cases.txt").write_text("\n".join(scripts) + "\n")
+    k = 8
+    chunks = [scripts[i::k] for i in range(k)]
+    def run_chunk(ch):
+        p = subprocess.run([str(core.TARGET / "wxfs")], input="\n".join(ch) + "\n", capture_output=True, text=True, timeout=3000)
+        return p.returncode, p.stdout.splitlines(), p.stderr[-500:]
+    with ThreadPoolExecutor(k) as ex: res = list(ex.map(run_chunk, chunks))
+    impl = {}
+    for ch, (rc, lines, err) in zip(chunks, res):
+        if rc != 0 or len(lines) != len(ch): s.error = f"wxfs failed rc={rc} ({len(lines)}/{len(ch)}): {err}"; return [s]
+        for c, l in zip(ch, lines): impl[c] = l
+    conf = {c: impl[c].split("\tCFG=")[1] for c in scripts}
+    impl = {c: impl[c].split("\tCFG=")[0] for c in scripts}
+    (d / "impl.txt").write_text("\n".join(impl[c] for c in scripts) + "\n")
+    ok, err = core.run_driver(["fs", "all"], d / "cases.txt", d / "model.txt")
+    if not ok: s.error = "wxdriver fs failed: " + err[-800:]; return [s]
+    model = core.read_lines(d / "model.txt")
+    s.evaluations = len(scripts)
+    for i, (c, mo) in enumerate(zip(scripts, model)):
+        im = impl[c]
+        if im != mo: s.disagreements.append((i, c, im, mo) if len(s.disagreements) < 40 else (i, "", "", ""))
+        w = fs_oracle(c, im.split(" ", 1)[1] if " " in im else im, conf[c])
+        if w: s.oracle_failures.append((i, c, im, w))
+        for key in ("hook:", "failw", "failu", ":P", "set::"):
+            if key in c: s.bump("has " + key.strip(":"))
+        if "new:" in im and ("unwatch:" in im or "dropwatcher" in im): s.nontrivial.add(hashlib.md5((c.split(" ", 1)[1] + im).encode()).digest()[:8])
+        if i % max(1, len(scripts) // 4) == 0 and len(s.samples) < 4: s.samples.append({"script": c, "impl": im[:300], "model": mo[:300]})
+    s.note = ("scripts of configuration changes (path sets over 4 names with recursion modes incl. mode flips, watcher kind), pokes, in-call changes (made from inside a watch/unwatch call "
+              "of the recording watcher, hook H2), injected watch/unwatch failures; per op the sorted call log, the number of runtime errors and the set registered with the active "
+              "watcher are compared with the model; bounded-exhaustive pairs of path-set changes over 2 paths x 2 modes x 2 kinds come first")
+    return [s]
+
+PLANS["C13"] = dict(
+    modules=["Wx.Fs.C13"],
+    theorems=["Fw.c13_converges", "Fw.J_runWorker", "Fw.J_iteration", "Fw.J_applyCfg", "Fw.J_addHook", "Fw.J_init", "Fw.iteration_core", "Fw.f8a_witness", "Fw.f8b_witness"],
+    bins=[("lib", ["wxfs"])],
+    streams=c13_streams,
+    sources=["crates/lib/src/sources/fs.rs", "crates/lib/src/config.rs", "crates/lib/src/changeable.rs"],
+    rule="a case is one script of configuration changes; non-trivial = a watcher is created and something is unregistered or released; distinct by (script body, observation)",
+    assumptions=["tokio Notify::notify_waiters wakes only an armed Notified (modelled); the recording watcher stands in for the notify back-ends (hook H2)",
+                 "HashSet iteration order inside the worker is not modelled: call logs are compared sorted, and failing unwatch is not combined with mode flips in generated scripts"],
+    partial="convergence is proved for the fault-free case (no injected watch/unwatch failures); with failures the model is tied by correspondence only; the number of worker iterations is not bounded by a theorem",
+)
+
+# ------------------------------------------------------------------------------------------------
+# C15 runtime errors
+
+def c15_streams(ctx):
+    n = 2400 if ctx["thorough"] else 480
+    r = random.Random(ctx["seed"] * 31 + 15)
+    s = core.StreamResult("errors")
+    d = core.WORK / "C15" / "errors"; d.mkdir(parents=True, exist_ok=True)
+    cases = []
+    for i in range(n):
+        cap = r.choice([1, 1, 2, 64])
+        nev = r.randint(1, 10)
+        evs = ",".join(f"v{j}:{r.choice('ppreee' if i % 3 else 'eeeeep')}" for j in range(nev))
+        behs = "".join(r.choice("iiiisr" + ("ec" if r.random() < 0.4 else "")) for _ in range(r.randint(0, 6))) or "-"
+        cases.append(f"k{i} {cap} {behs} {evs}")
+    p = subprocess.run([str(core.TARGET / "wxerr")], input="\n".join(cases) + "\n", capture_output=True, text=True, timeout=3000)
+    outs = p.stdout.splitlines()
+    if p.returncode != 0 or len(outs) != len(cases): s.error = f"wxerr failed rc={p.returncode}: {p.stderr[-600:]}"; return [s]
+    lines = []
+    parsed = []
+    for c, o in zip(cases, outs):
+        cid, cap, beh, evs = c.split(" ")
+        f = dict(x.split("=", 1) for x in o.split(" ")[1:])
+        handled = [h for h in f["handled"].split(",") if h]
+        names = [h[2:] if h.startswith("N:") else h for h in handled]
+        errs = ["inj-" + e.split(":")[0] for e in evs.split(",") if e.endswith(":e")]
+        order = names + [e for e in errs if e not in names]
+        lines.append(f"ERR\t{cap}\t{beh}\t{','.join(order)}")
+        parsed.append((c, o, f, handled, names, errs, [e.split(":")[0] for e in evs.split(",") if e.endswith(":p")]))
+    (d / "cases.txt").write_text("\n".join(lines) + "\n")
+    (d / "impl.txt").write_text("\n".join(outs) + "\n")
+    ok, err = core.run_driver(["err"], d / "cases.txt", d / "model.txt")
+    if not ok: s.error = "wxdriver err failed: " + err[-600:]; return [s]
+    model = core.read_lines(d / "model.txt")
+    s.evaluations = len(cases)
+    for i, ((c, o, f, handled, names, errs, passes), mo) in enumerate(zip(parsed, model)):
+        im = f"handled={f['handled']} main={f['main']}"
+        if im != mo: s.disagreements.append((i, c, o, mo))
+        acts = [a for a in f["actions"].split(",") if a]
+        what = None
+        if len(set(names)) != len(names): what = f"an error was passed to the handler twice: {names}"
+        elif not set(names) <= set(errs): what = f"the handler saw an error that was not raised: {names} vs {errs}"
+        elif f["main"] == "running":
+            if sorted(names) != sorted(errs): what = f"errors raised {sorted(errs)} but handled {sorted(names)} although nothing was elevated"
+            elif sorted(acts) != sorted(passes): what = f"accepted events {sorted(passes)} but delivered {sorted(acts)}: an error stopped event processing"
+        elif len(set(acts)) != len(acts) or not set(acts) <= set(passes): what = f"delivered events {acts} are not a duplicate-free subset of the accepted ones {passes}"
+        if f["main"] == "running" and any(b in "ec" for b in (c.split(" ")[2][:len(handled)] if c.split(" ")[2] != "-" else "")): what = "the handler elevated / raised a critical error but the main task kept running"
+        if what: s.oracle_failures.append((i, c, o, what))
+        s.bump("main=" + f["main"]); s.bump("cap=" + c.split(" ")[1])
+        if len(errs) >= 2: s.nontrivial.add(hashlib.md5((c.split(" ", 1)[1] + o).encode()).digest()[:8])
+        if i % max(1, len(cases) // 3) == 0 and len(s.samples) < 3: s.samples.append({"case": c, "impl": o, "model": mo})
+    s.note = ("a real Watchexec instance (with_config, main()), a scripted filterer failing on chosen events, error_channel_size 1 / 2 / 64, handlers that ignore, sleep, elevate, raise a "
+              "critical error or replace themselves from inside the call; the order in which the handler saw the errors is an input of the model (the event channel is a heap), which "
+              "predicts the handler generation per error and how main ends; watch/unwatch failures -> one runtime error per attempt are covered by the fs-worker stream (field e<n>)")
+    return [s]
+
+def c15_fs(ctx):
+    # the fs worker's side of C15: one runtime error per failed watch / unwatch attempt (the e<n> field of every op), loop continues
+    xs = c13_streams(dict(ctx, pid13="C15"))
+    for x in xs:
+        x.name = "fs-worker-errors"; x.oracle_failures = []
+    return xs
+
+PLANS["C15"] = dict(
+    modules=["Wx.Err.C15"],
+    theorems=["Eh.c15_conserved", "Eh.hook_end", "Eh.ended_stops", "Eh.inv_step", "Eh.inv_init"],
+    bins=[("lib", ["wxerr", "wxfs"])],
+    streams=lambda ctx: c15_streams(ctx) + c15_fs(ctx),
+    sources=["crates/lib/src/watchexec.rs", "crates/lib/src/action/worker.rs", "crates/lib/src/sources/fs.rs", "crates/lib/src/error/runtime.rs", "crates/lib/src/error/critical.rs"],
+    rule="a case is one fault script (channel capacity, handler behaviours, events with filter verdicts); non-trivial = at least two injected errors; distinct by (script, observation)",
+    assumptions=["tokio bounded mpsc: senders wait in arrival order, nothing is dropped by send().await, try_send drops when no permit is free (modelled)",
+                 "async-priority-channel is a heap: the order in which equal-priority events (and hence their filter errors) reach the handler is an input of the model"],
+    partial="real-time runs (each case 200 ms of wall clock); 'every error handled exactly once' is proved on the channel model and observed on the real instance; callback (try_send) errors are modelled but not injected into the real instance",
+)
+
+# ------------------------------------------------------------------------------------------------
+# C01 / C02 action worker (real time)
+
+import re
+
+def worker_cases(seed, n):
+    r = random.Random(seed * 101 + 1)
+    cases = []
+    for i in range(n):
+        slow = (i % 4 == 3)                       # every fourth case has a slow handler: judged by the oracle only
+        thr = r.choice([120, 120, 170, 220, 0]) if not slow else r.choice([120, 170])
+        k = r.randint(1, 9); t = 0; arr = []
+        for j in range(k):
+            t += r.choice([0, 50, 50, 100, 150, 250]) if j else 0
+            if arr and t == arr[-1][0]: t += 50
+            prio = r.choice("nnnnhlu"); kind = r.choice("ttttte"); v = r.choice("ppprre")
+            arr.append((t, f"{i}x{j}", prio, kind, v))
+        cases.append((f"c{i}", thr, r.choice([60, 130]) if slow else 0, arr))
+    return cases
+
+def worker_oracle(thr, arr, sent, got, errs, filtered):
+    """schedule-independent: conservation, never-rejected, non-empty, filter bypass, error count, strict lower bound"""
+    byid = {a[1]: a for a in arr}
+    acc = sorted(a[1] for a in arr if a[2] == "u" or a[3] == "e" or a[4] == "p")
+    delivered = sorted(x for _, ids in got for x in ids)
+    out = []
+    if any(not ids or ids == [""] for _, ids in got): out.append(("C01", "the handler was invoked with an empty batch"))
+    if delivered != acc:
+        extra = [x for x in delivered if x not in acc]; missing = [x for x in acc if x not in delivered]
+        dup = sorted(set(x for x in delivered if delivered.count(x) > 1))
+        out.append(("C01", f"accepted events {acc} but delivered {delivered}" + (f"; rejected/erroring delivered: {extra}" if extra else "") + (f"; never delivered: {missing}" if missing else "") + (f"; delivered twice: {dup}" if dup else "")))
+    nonbypass = sorted(a[1] for a in arr if not (a[2] == "u" or a[3] == "e"))
+    if sorted(filtered) != nonbypass: out.append(("C02", f"filter was asked about {sorted(filtered)}, expected exactly the non-urgent non-empty events {nonbypass}"))
+    if errs != sum(1 for a in arr if a[4] == "e" and not (a[2] == "u" or a[3] == "e")): out.append(("C01", f"{errs} runtime errors for the erroring events"))
+    for tg, ids in got:
+        if any(byid[x][2] == "u" for x in ids if x in byid): continue
+        first = min(sent[x] for x in ids if x in sent) if any(x in sent for x in ids) else None
+        if first is not None and tg < first + thr * 1000:
+            out.append(("C02", f"batch {ids} reached the handler {(first + thr * 1000 - tg) / 1000:.2f} ms before its window ({thr} ms after its first event) had elapsed"))
+    return out
+
+def worker_stream(pid, ctx):
+    n = 960 if ctx["thorough"] else 144
+    s = core.StreamResult("worker-rt")
+    d = core.WORK / pid / "worker-rt"; d.mkdir(parents=True, exist_ok=True)
+    cases = worker_cases(ctx["seed"], n)
+    lines = [f"{cid} {thr} {hm} " + ",".join(f"{t}:{i}:{p}:{k}:{v}" for (t, i, p, k, v) in a) for cid, thr, hm, a in cases]
+    (d / "cases.txt").write_text("\n".join(lines) + "\n")
+    def run_all(ls):
+        p = subprocess.run([str(core.TARGET / "wxthrottle")], input="\n".join(ls) + "\n", capture_output=True, text=True, timeout=3000)
+        return p.returncode, p.stdout.splitlines(), p.stderr[-600:]
+    rc, outs, err = run_all(lines)
+    if rc != 0 or len(outs) != len(lines): s.error = f"wxthrottle failed rc={rc}: {err}"; return s
+    (d / "impl.txt").write_text("\n".join(outs) + "\n")
+    ok, err = core.run_driver(["throttle"], d / "cases.txt", d / "model.txt")
+    if not ok: s.error = "wxdriver throttle failed: " + err[-600:]; return s
+    model = core.read_lines(d / "model.txt")
+    s.evaluations = len(cases)
+    worst_late = 0
+    def parse(line):
+        m = re.match(r"\S+ sent=(\S*) batches=(\S*) errs=(\d+) filtered=(\S*)", line)
+        sent = {x.split("@")[0]: int(x.split("@")[1]) for x in m.group(1).split(",") if x}
+        got = [(int(b.split("@")[1]), b.split("@")[0].split("+")) for b in m.group(2).split(",") if b]
+        return sent, got, int(m.group(3)), [x for x in m.group(4).split("+") if x]
+    suspects = []
+    for i, ((cid, thr, hm, arr), line, mo) in enumerate(zip(cases, outs, model)):
+        sent, got, errs, filtered = parse(line)
+        canon = f"{cid} batches={','.join('+'.join(ids) for _, ids in got)} errs={errs} filtered={'+'.join(filtered)}"
+        if hm == 0 and canon != mo: suspects.append(i)
+        for prop, what in worker_oracle(thr, arr, sent, got, errs, filtered):
+            if prop == pid or (pid == "C02" and prop == "C01" and False): s.oracle_failures.append((i, lines[i], line, f"[{prop}] {what}"))
+        for tg, ids in got:
+            if not any(a[2] == "u" for a in arr if a[1] in ids) and all(x in sent for x in ids):
+                worst_late = max(worst_late, tg - (min(sent[x] for x in ids) + thr * 1000))
+        s.bump(f"throttle={thr}"); s.bump("slow-handler" if hm else "instant-handler"); s.bump(f"batches={min(len(got), 4)}")
+        if len(got) >= 2: s.nontrivial.add(hashlib.md5((lines[i].split(" ", 1)[1] + canon).encode()).digest()[:8])
+        if i % max(1, len(cases) // 3) == 0 and len(s.samples) < 3: s.samples.append({"case": lines[i], "impl": line[:300], "model": mo[:300]})
+    # a composition mismatch in a deterministic case depends on wall-clock scheduling: it counts only if it persists in 3 re-runs
+    if suspects:
+        persistent = set(suspects)
+        for _ in range(3):
+            rc, outs2, err = run_all([lines[i] for i in sorted(persistent)])
+            if rc != 0: break
+            for i, line in zip(sorted(persistent), outs2):
+                sent, got, errs, filtered = parse(line)
+                canon = f"{cases[i][0]} batches={','.join('+'.join(ids) for _, ids in got)} errs={errs} filtered={'+'.join(filtered)}"
+                if canon == model[i]: persistent.discard(i)
+            if not persistent: break
+        for i in sorted(persistent): s.disagreements.append((i, lines[i], outs[i], model[i]))
+        s.bump("timing-suspects-rerun", len(suspects))
+    s.distribution["worst lateness after window end (us)"] = worst_late
+    s.note = ("the real action::worker with own channels in REAL time (std Instant is not virtualised): arrivals on a 50 ms grid with throttles 0/120/170/220 ms (every arrival 20-30 ms away "
+              "from a window edge), scripted filter verdicts keyed by event id, priorities incl. urgent, empty events; 3/4 of the cases have an instant handler and their batch "
+              "composition / error count / filter-call list must equal the model's zero-latency run (a mismatch counts only if it persists in three re-runs); 1/4 have a slow handler and "
+              "are judged by the schedule-independent oracle only (conservation, never-rejected, non-empty, filter bypass, strict lower bound)")
+    return s
+
+def worker_plan(pid, theorems, rule_extra):
+    return dict(modules=["Wx.Glob.Throttle"], theorems=theorems, bins=[("lib", ["wxthrottle"])], streams=lambda ctx: [worker_stream(pid, ctx)],
+                sources=["crates/lib/src/action/worker.rs", "crates/lib/src/watchexec.rs", "crates/lib/src/filter.rs", "crates/events/src/event.rs"],
+                rule="a case is one arrival script (throttle, handler time, events with time / priority / emptiness / filter verdict); non-trivial = at least two batches; distinct by (script, observation). " + rule_extra,
+                assumptions=["async-priority-channel is a bounded priority heap (order within one priority unspecified) — external, modelled as the turn input",
+                             "tokio::time::timeout and std::time::Instant: each clock reading is an input of a turn; only monotonicity is relied on",
+                             "delivery of filesystem events by inotify/poll and of signals by the OS is not modelled"],
+                partial="the real-time stream cannot place arrivals exactly on window edges; the theorems cover every clock reading, the stream validates the model away from the edges")
+
+PLANS["C01"] = worker_plan("C01", ["Sp.Th.collect_conserve", "Sp.Th.turn_batch", "Sp.Th.turn_next_set", "Sp.Th.turn_filtered", "Sp.Th.classify_spec", "Sp.Th.accepted_iff"],
+                           "Oracle: every accepted event in exactly one batch, no rejected or erroring event in any, no empty batch, one runtime error per erroring event.")
+PLANS["C02"] = worker_plan("C02", ["Sp.Th.turn_lower_bound", "Sp.Th.turn_batch", "Sp.Th.turn_filtered", "Sp.Th.collect_conserve", "Sp.Th.classify_spec"],
+                           "Oracle: a batch without urgent events reaches the handler no earlier than throttle after its first event was sent (strict, microseconds); urgent and empty events never reach the filter.")
